@@ -19,6 +19,18 @@ type FakeConn struct {
 	ReadDL    []time.Time
 	WriteDL   []time.Time
 	OnWriteFn func(b []byte)
+	// BlockAt: 1-based index of the Write call that blocks until Gate is closed (0 = never); Blocked is
+	// closed when that call has started to block, Returned when it has returned. All three are created by
+	// ArmBlock.
+	BlockAt  int
+	Gate     chan struct{}
+	Blocked  chan struct{}
+	Returned chan struct{}
+}
+
+// ArmBlock makes the k-th Write call block until Gate is closed.
+func (c *FakeConn) ArmBlock(k int) {
+	c.BlockAt, c.Gate, c.Blocked, c.Returned = k, make(chan struct{}), make(chan struct{}), make(chan struct{})
 }
 
 type fakeAddr string
@@ -36,6 +48,17 @@ func (c *FakeConn) Write(b []byte) (int, error) {
 		return 0, net.ErrClosed
 	}
 	c.nwrites++
+	if c.BlockAt > 0 && c.nwrites == c.BlockAt {
+		// a peer that does not take the data: the call hangs until the harness lets it go
+		c.mu.Unlock()
+		close(c.Blocked)
+		<-c.Gate
+		c.mu.Lock()
+		defer close(c.Returned)
+		if c.Closed {
+			return 0, net.ErrClosed
+		}
+	}
 	if c.FailAt > 0 && c.nwrites >= c.FailAt {
 		return 0, ErrInjected
 	}
